@@ -47,6 +47,21 @@ def schedstream(profile, nq, nt, modes, length=120):
 RULE_SCHED = "real scheduler (launch() / Drummer.maintainShards() through the verif hook, scripted random source, Go map orders read back and handed to the model) on contexts answered by the real DB; profiles: launch = definitions of 1..6 shards x 1..5 members, the full matrix of region specifications (absent, shorter, longer, over/under-subscribed, duplicate, unknown, count 2^63), fleets of 0..8 hosts with regions and liveness; repair = views built member by member (healthy / failed after silence / failed never seen / waiting; host live or not; log record or not; surplus or missing members), 1..4 shards of <=5 members on 4..7 hosts; general = random command sequences; evaluations = scheduling calls, non-trivial = calls that produced requests"
 
 CHECKS = {
+    "C20": {
+        "lean": ["DrummerVerif.Props.C20"],
+        "streams": [{"cmd": "kvcodec", "driver": "CodecDriver", "sections": None, "eval_re": r"^case:",
+                     "args": {"quick": ["-n", "1500", "-depth", "5"], "thorough": ["-n", "40000", "-depth", "6"]}}],
+        "rule": "kv.KV of the real package: (1) pairs over the length grid {0,1,2,127,128,129,16383,16384,16385,70000}^2 with random byte content, (2) EVERY byte string over the alphabet {00,01,02,7f,80,ff} up to the given depth decoded into a non-empty prior object (exhaustive), (3) random pairs incl. empty key/value, each with three mutated encodings (truncated, bit flipped, suffix appended, over-long varint inserted), (4) encodings of exactly ColferSizeMax-1 and ColferSizeMax bytes; non-trivial = encode cases (each also decoded back, decoded with a suffix and length-checked on the implementation)",
+        "assumptions": ["Go strings hold arbitrary bytes; copy/len as specified"],
+        "trusted": ["16 MiB boundary case is run on the real code only (the model proves the round trip under the exact guard len < ColferSizeMax)"],
+    },
+    "C06": {
+        "lean": ["DrummerVerif.Props.C06"],
+        "streams": [{"cmd": "porc", "driver": "PorcDriver", "sections": None, "eval_re": r"^case:",
+                     "args": {"quick": ["-n", "1500", "-exhaustive", "2"], "thorough": ["-n", "30000", "-exhaustive", "3"]}}],
+        "rule": "histories for the bundled register model: EVERY history with up to 2 (quick) / 3 (thorough) operations over reads (absent / 0 / 1 / unknown), writes (0,1; known / unknown) and CAS (all of {0,1}^2; ok / failed / unknown) in every well-formed interleaving of invocations and responses (exhaustive), plus random histories of up to 12 operations by up to 6 processes produced by a simulated register (two thirds linearizable by construction, one third with corrupted outcomes, one outcome in eight unknown); for every history: verdict and the full sequence of Step calls of the real CheckEvents are compared with the Lean model of checkSingle, the verdict with a brute-force search over all real-time-respecting orders (<= 9 operations), with the verdict after an injective renumbering and with two repeated runs; non-trivial = histories with >= 2 operations, distinct by content",
+        "assumptions": ["with the default NoPartitionEvent there is one worker goroutine; without a timeout CheckEvents returns its result"],
+    },
     "C08": {
         "lean": ["DrummerVerif.Props.C08"],
         "streams": [schedstream("launch", 400, 6000, ["launch"]), schedstream("general", 100, 1500, ["launch"])],
